@@ -16,14 +16,15 @@ import (
 // real compiler and returns its descriptors as a Case: Gen = the files of local
 // packages (compiled from j5s), Deps = everything they import. Options are
 // re-marshalled, as the tool does before the descriptors reach the reader.
-func GenerateJ5S(r *vh.Rand) (c *Case, err error) {
+func GenerateJ5S(r *vh.Rand, services bool) (c *Case, err error) {
 	defer func() {
 		if p := recover(); p != nil {
 			c, err = nil, fmt.Errorf("compiler panic: %v", p)
 		}
 	}()
 	cfg := j5sgen.DefaultConfig()
-	cfg.Services, cfg.Topics, cfg.PFiles = false, false, false
+	// services and topics: what structure.APIFromImage's addStructure reads (C15 models it)
+	cfg.Services, cfg.Topics, cfg.PFiles = services, services, false
 	cfg.MaxFields, cfg.MaxDepth, cfg.MaxPackages = 5, 3, 2
 	if r.Chance(40) {
 		cfg.Imports, cfg.MaxFiles = false, 1
